@@ -518,6 +518,9 @@ func drivePoint(t *Tracer, r Rng, n int) {
 			if r.Chance(0.1) {
 				k = r.Intn(51)
 			}
+			if i%900 == 31 {
+				k = int(r.In(300, 1000)) // a long list
+			}
 			ps := make([]Pt, 0, k)
 			for len(ps) < k {
 				if len(ps) > 0 && r.Chance(0.15) {
